@@ -103,6 +103,35 @@ def int_cases(quick):
                     cases.append(Case(f"arg/{name}/{v}/{sname}", print_call(f"{h}({text})", name, w, signed),
                                       show_int(v, w, signed), decls=f"{h} :: (a: {name}) -> {name} {{ a }}\n",
                                       meta={"v": v, "ty": name}))
+    # positions where the integer type of the literal comes from somewhere else than a plain annotation of the literal itself
+    for v in vals:
+        for sname, text in spellings(v):
+            if sname not in ("dec", "hex"):
+                continue
+            for name, w, signed in INT_TYPES:
+                if name in ("isize", "usize"):
+                    continue
+                ok = fits(v, w, signed)
+                u = f"{name}_{v}_{sname}"
+                unwrapped = lambda e: f"#unwrap({e}, {name})"
+                forms = {
+                    "optional-annotation": ("", f"x : ?{name} = {text};", unwrapped("x")),
+                    "optional-argument": (f"ho_{u} :: (a: ?{name}) -> {name} {{ #unwrap(a, {name}) }}\n", "", f"ho_{u}({text})"),
+                    "struct-member": (f"SM_{u} :: struct {{ g: u8, m: {name} }};\n", f"s := SM_{u}.{{ g = 1, m = {text} }};", "s.m"),
+                    "optional-struct-member": (f"SO_{u} :: struct {{ g: u8, m: ?{name} }};\n", f"s := SO_{u}.{{ g = 1, m = {text} }};", unwrapped("s.m")),
+                    "return-value": (f"hr_{u} :: () -> {name} {{ return {text}; }}\n", "", f"hr_{u}()"),
+                    "optional-return-value": (f"hq_{u} :: () -> ?{name} {{ return {text}; }}\n", f"x := hq_{u}();", unwrapped("x")),
+                    "array-element": ("", f"a : [2]{name} = .[{text}, 1];", "a[0]"),
+                    "assignment": ("", f"x : {name} = 0; x = {text};", "x"),
+                    "error-union-annotation": ("", f"x : LitErr!{name} = {text};", unwrapped("x")),
+                }
+                for form, (decls, setup, expr) in forms.items():
+                    key = f"typed/{form}/{name}/{v}/{sname}"
+                    if ok:
+                        cases.append(Case(key, setup + "\n" + print_call(expr, name, w, signed), show_int(v, w, signed), decls=decls,
+                                          meta={"v": v, "ty": name}))
+                    else:
+                        cases.append(Case(key, setup + "\n" + print_call(expr, name, w, signed), None, decls=decls, accept=False, meta={"v": v, "ty": name}))
     # values that do not fit in 64 bits are rejected in every spelling
     for text in ("18446744073709551616", "99999999999999999999", "2e19", "1e20", "0x10000000000000000",
                  "0b" + "1" * 65, "184467440737095516_16"):
@@ -190,7 +219,7 @@ def explains(model, m):
 def run(tier, seed):
     started = time.time()
     quick = tier == "quick"
-    runner = core.Runner("c09", batch_size=120, prelude=core.PRELUDE + HELPERS)
+    runner = core.Runner("c09", batch_size=120, prelude=core.PRELUDE + HELPERS + "LitErr :: enum { Bad };\n")
     cases = int_cases(quick) + char_cases() + string_cases() + float_cases()
     cases = [c for c in cases if not c.meta.get("optional")]
     mism = runner.run(cases)
